@@ -207,6 +207,12 @@ func zzC01Options(need zzC01Need, variant int) syntax.FileOptions {
 // zzC01Diff runs src both ways and asserts agreement. knownOutcome: the program is one for
 // which a difference of outcome is a recorded defect of the implementation.
 func zzC01Diff(src string, opts syntax.FileOptions, knownOutcome bool) {
+	zzC01DiffK(src, opts, knownOutcome, false)
+}
+
+// zzC01DiffK: as zzC01Diff; knownPosition: the program is one for which a wrong failure
+// position is a recorded defect.
+func zzC01DiffK(src string, opts syntax.FileOptions, knownOutcome, knownPosition bool) {
 	pre := zzC01Predeclared()
 
 	// production pipeline
@@ -257,7 +263,7 @@ func zzC01Diff(src string, opts syntax.FileOptions, knownOutcome bool) {
 				if errB.stack[i].wild {
 					continue
 				}
-				zzAssert(zzAnd(stackA[i].line == errB.stack[i].line, stackA[i].col == errB.stack[i].col), "C01.diff.fail_position")
+				zzAssertExcept(zzAnd(stackA[i].line == errB.stack[i].line, stackA[i].col == errB.stack[i].col), "C01.diff.fail_position", knownPosition)
 			}
 		}
 	}
